@@ -656,6 +656,133 @@ def install_more(models):
         v = z3.simplify(z3.Extract(bits - 1, 0, val))
         return EnumV("Result", 0, [v.as_long() if z3.is_bv_value(v) else SV(v, bits)])
 
+    # ---- byte iteration as far as whole-character reasoning allows (used by unescape::skip_ascii_whitespace)
+    class BytesItV:
+        ref_like = True
+
+        def __init__(self, sl):
+            self.sl = sl; self.i = sl.lo
+
+        def __deepcopy__(self, memo):
+            return self
+
+    @R(r"^core::str::<impl str>::bytes$")
+    def _bytes(ex, c, a):
+        return BytesItV(as_slice(a[0]))
+
+    @R(r"^<(std::str::)?Bytes<'_> as Iterator>::position::<.*>$")
+    def _bytes_position(ex, c, a):
+        it = deref(a[0]); pred = a[1]
+        sl = it.sl
+        while it.i < sl.hi:
+            ch = sl.s.chars[it.i]
+            b = first_byte(ch)
+            r = ex.call_closure(pred, [b])
+            if isinstance(r, SB):
+                r = ex.branch_bool(r)
+            elif isinstance(r, SV):
+                r = ex.branch_bool(SB(r.e != 0))
+            if r:
+                off = span_len(sl.s, sl.lo, it.i)
+                return opt(off)
+            # the predicate rejected the first byte: whole-character reasoning needs the character to be that single byte
+            if isinstance(ch, int):
+                if ch >= 0x80:
+                    raise Unsupported("bytes().position() continues inside a multi-byte character")
+            else:
+                if ex.check_sat(z3.UGE(ch.e, 0x80)) is not None:
+                    raise Unsupported("bytes().position() continues inside a multi-byte character")
+            it.i += 1
+        return opt(None)
+
+    @R(r"^core::slice::<impl \[u8\]>::contains$")
+    def _bytes_contains(ex, c, a):
+        bs = deref(a[0]); needle = deref(a[1])
+        sl = bs.sl if isinstance(bs, BytesV) else as_slice(bs)
+        if not isinstance(needle, int) or needle >= 0x80:
+            raise Unsupported("[u8]::contains of a non-ASCII byte")
+        for k in range(sl.lo, sl.hi):
+            ch = sl.s.chars[k]
+            if isinstance(ch, int):
+                if ch == needle:
+                    return True
+            elif ex.branch_bool(SB(ch.e == needle)):
+                return True
+        return False
+
+    @R(r"^char::methods::<impl char>::is_whitespace$")
+    def _is_ws(ex, c, a):
+        ch = deref(a[0])
+        WS = [(9, 13), (32, 32), (0x85, 0x85), (0xA0, 0xA0), (0x1680, 0x1680), (0x2000, 0x200A), (0x2028, 0x2029), (0x202F, 0x202F), (0x205F, 0x205F), (0x3000, 0x3000)]
+        if isinstance(ch, int):
+            return any(lo <= ch <= hi for lo, hi in WS)
+        return SB(z3.Or([z3.And(z3.UGE(ch.e, lo), z3.ULE(ch.e, hi)) for lo, hi in WS]))
+
+    @R(r"^core::num::<impl (usize|u8|u16|u32|u64|u128)>::(saturating_sub|saturating_add|wrapping_sub|wrapping_add|checked_sub|checked_add|min|max)$|^std::cmp::(min|max)::<(usize|u32|u64)>$|^<(usize|u32|u64) as Ord>::(min|max)$")
+    def _num_methods(ex, c, a):
+        m = re.search(r"(saturating_sub|saturating_add|wrapping_sub|wrapping_add|checked_sub|checked_add|min|max)", c).group(1)
+        tm = re.search(r"impl (usize|u\d+)|::<(usize|u\d+)>|<(usize|u\d+) as", c)
+        tn = next(g for g in tm.groups() if g)
+        w = 64 if tn == "usize" else int(tn[1:])
+        x, y = deref(a[0]), deref(a[1])
+
+        def norm(v):
+            if isinstance(v, LenV):
+                v = v.norm()
+            return v
+        x, y = norm(x), norm(y)
+        if isinstance(x, int) and isinstance(y, int):
+            M = (1 << w) - 1
+            if m == "saturating_sub": return max(x - y, 0)
+            if m == "saturating_add": return min(x + y, M)
+            if m == "wrapping_sub": return (x - y) & M
+            if m == "wrapping_add": return (x + y) & M
+            if m == "checked_sub": return opt(x - y if x >= y else None)
+            if m == "checked_add": return opt(x + y if x + y <= M else None)
+            return min(x, y) if m == "min" else max(x, y)
+
+        def e(v):
+            if isinstance(v, LenV):
+                t = v.to_sv()
+                return z3.ZeroExt(w - t.w, t.e) if t.w < w else (z3.Extract(w - 1, 0, t.e) if t.w > w else t.e)
+            if isinstance(v, SV):
+                return z3.ZeroExt(w - v.w, v.e) if v.w < w else v.e
+            return z3.BitVecVal(v, w)
+        xe, ye = e(x), e(y)
+
+        def lin(op):
+            r = lenv_binop(ex, op, x, y) if (isinstance(x, LenV) or isinstance(y, LenV)) else None
+            return r
+        if m in ("saturating_sub", "checked_sub"):
+            ge = ex.branch_bool(SB(z3.UGE(xe, ye)))
+            if ge:
+                r = lin("Sub")
+                r = r if r is not None else SV(z3.simplify(xe - ye), w)
+                return r if m == "saturating_sub" else opt(r)
+            return 0 if m == "saturating_sub" else opt(None)
+        if m in ("min", "max"):
+            le = ex.branch_bool(SB(z3.ULE(xe, ye)))
+            return (x if le else y) if m == "min" else (y if le else x)
+        if m in ("wrapping_sub",):
+            return SV(z3.simplify(xe - ye), w)
+        if m in ("wrapping_add",):
+            return SV(z3.simplify(xe + ye), w)
+        if m in ("saturating_add", "checked_add"):
+            ok = ex.branch_bool(SB(z3.UGE(xe + ye, xe)))
+            if ok:
+                r = lin("Add")
+                r = r if r is not None else SV(z3.simplify(xe + ye), w)
+                return r if m == "saturating_add" else opt(r)
+            return ((1 << w) - 1) if m == "saturating_add" else opt(None)
+        raise Unsupported(c)
+
+    @R(r"^Option::<&str>::is_some_and::<.*>$")
+    def _is_some_and(ex, c, a):
+        o = deref(a[0])
+        if o.idx == 0:
+            return False
+        return ex.call_closure(a[1], [o.fields[0]])
+
     @R(r"^(core::|std::)?str::<impl str>::parse::<u(128|64|32|size)>$")
     def _parse_uint(ex, c, a):
         bits = re.search(r"parse::<u(\d+|size)>", c).group(1)
